@@ -309,6 +309,14 @@ class Ctx:
                 items = list(v)
             else:
                 raise Unsupported(f"cannot convert {v!r} to {ty}")
+            if not items:
+                # one canonical term for the empty list of a type (so that empty lists are equal as terms)
+                arr = z3.Const("empty_" + ty.args[0].key, z3.ArraySort(z3.IntSort(), sort_of(ty.args[0])))
+                empty = s.mk(arr, z3.IntVal(0))
+                if ty.args[0].name in ("Ref", "Int", "Str"):
+                    e = z3.Const(self.fresh_name("e"), sort_of(ty.args[0]))
+                    self.assume(z3.ForAll([e], z3.Not(mem_fn(ty)(empty, e)), patterns=[mem_fn(ty)(empty, e)]))
+                return empty
             arr = z3.Const(self.fresh_name("arr"), z3.ArraySort(z3.IntSort(), sort_of(ty.args[0])))
             for k, e in enumerate(items):
                 arr = z3.Store(arr, k, self.term(e, ty.args[0]))
